@@ -274,6 +274,28 @@ def _atom(s: str) -> Poly:
     return Poly.atom(s)
 
 
+def _ite(c: "Poly", a: "Poly", b: "Poly") -> "Poly":
+    """if-then-else term with the boolean identities ite(c,True,False)=c, ite(c,True,x)=c or x, ite(c,x,False)=c and x,
+    ite(c,a,a)=a; a negated condition swaps the branches"""
+    cs = str(c)
+    if cs.startswith("not(") and cs.endswith(")") and cs.count("(") == cs.count(")"):
+        inner = cs[4:-1]
+        if inner.count("(") == inner.count(")"):
+            return _ite(Poly.atom(inner), b, a)
+    sa, sb = str(a), str(b)
+    if sa == sb:
+        return a
+    if sa == "True" and sb == "False":
+        return c
+    if sa == "False" and sb == "True":
+        return Poly.atom("not(%s)" % cs)
+    if sa == "True":
+        return Poly.atom("(" + " or ".join(sorted([cs, sb])) + ")")
+    if sb == "False":
+        return Poly.atom("(" + " and ".join(sorted([cs, sa])) + ")")
+    return Poly.atom("ite(%s, %s, %s)" % (cs, sa, sb))
+
+
 def _sym(e: ast.AST, env: Env) -> Poly:
     if isinstance(e, ast.Constant):
         if isinstance(e.value, bool):
@@ -350,7 +372,7 @@ def _sym(e: ast.AST, env: Env) -> Poly:
         vs = sorted(str(_sym(v, env)) for v in e.values)
         return _atom("(" + (" %s " % op).join(vs) + ")")
     if isinstance(e, ast.IfExp):
-        return _atom("ite(%s, %s, %s)" % (_sym(e.test, env), _sym(e.body, env), _sym(e.orelse, env)))
+        return _ite(_sym(e.test, env), _sym(e.body, env), _sym(e.orelse, env))
     if isinstance(e, ast.Attribute):
         return _atom("%s.%s" % (_sym(e.value, env), e.attr))
     if isinstance(e, ast.Subscript):
@@ -546,11 +568,15 @@ def forward(fn_node: ast.AST, base: Optional[Env] = None) -> Dict[int, Env]:
         for n in names:
             env.values[n] = Poly.atom(env.rename.get(n, n))
 
-    def merge(env: Env, branches: List[Env], names):
+    def merge(env: Env, branches: List[Env], names, test: Optional[ast.AST] = None, test_env: Optional[Env] = None):
         for n in names:
             vals = [b.values.get(n) for b in branches]
             if all(v is not None and v == vals[0] for v in vals):
                 env.values[n] = vals[0]
+            elif test is not None and len(vals) == 2 and all(v is not None for v in vals):
+                env.values[n] = _ite(_sym(test, test_env or env), vals[0], vals[1])
+                if n in branches[0].seq and n in branches[1].seq:
+                    env.seq.add(n)
             else:
                 env.values[n] = Poly.atom(env.rename.get(n, n))
 
@@ -570,9 +596,37 @@ def forward(fn_node: ast.AST, base: Optional[Env] = None) -> Dict[int, Env]:
                                                              op=st.op, right=st.value), env)
             elif isinstance(st, ast.If):
                 names = _assigned_names(st.body) | _assigned_names(st.orelse)
+                before = env.copy()
                 e1 = run(st.body, env.copy())
                 e2 = run(st.orelse, env.copy())
-                merge(env, [e1, e2], names)
+                # a name assigned in one branch only keeps its previous value in the other
+                for n in names:
+                    for e_ in (e1, e2):
+                        if n not in e_.values and n in before.values:
+                            e_.values[n] = before.values[n]
+                from .astutil import ends_abruptly as _abrupt
+                if _abrupt(st.body) and not _abrupt(st.orelse):
+                    for n in names:
+                        if n in e2.values:
+                            env.values[n] = e2.values[n]
+                        else:
+                            env.values[n] = Poly.atom(env.rename.get(n, n))
+                elif st.orelse and _abrupt(st.orelse) and not _abrupt(st.body):
+                    for n in names:
+                        if n in e1.values:
+                            env.values[n] = e1.values[n]
+                        else:
+                            env.values[n] = Poly.atom(env.rename.get(n, n))
+                else:
+                    merge(env, [e1, e2], names, st.test, before)
+            elif isinstance(st, (ast.For, ast.AsyncFor)) and _accumulator(st, env) is not None:
+                acc, comp = _accumulator(st, env)
+                loop_env = env.copy()
+                kill(loop_env, _assigned_names(st.body) | _assigned_names([st.target]))
+                run(st.body, loop_env)
+                kill(env, (_assigned_names(st.body) | _assigned_names([st.target])) - {acc})
+                env.values[acc] = comp
+                env.seq.add(acc)
             elif isinstance(st, (ast.For, ast.AsyncFor, ast.While)):
                 names = _assigned_names(st.body) | (_assigned_names([st.target]) if hasattr(st, "target") else set())
                 loop_env = env.copy()
@@ -608,6 +662,93 @@ def forward(fn_node: ast.AST, base: Optional[Env] = None) -> Dict[int, Env]:
     return snaps
 
 
+def _accumulator(st: ast.For, env: Env):
+    """for T in XS: [if C:] acc.append(E)   with acc currently the empty list  ->  (acc, normal form of [E for T in XS if C]);
+    also  acc.extend(E)  ->  the flattened comprehension, and  acc += [E]."""
+    if st.orelse or len(st.body) != 1:
+        return None
+    inner = st.body[0]
+    conds = []
+    while isinstance(inner, ast.If) and not inner.orelse and len(inner.body) == 1:
+        conds.append(inner.test)
+        inner = inner.body[0]
+    elt, acc, flat = None, None, False
+    if isinstance(inner, ast.Expr) and isinstance(inner.value, ast.Call) and isinstance(inner.value.func, ast.Attribute) and \
+            isinstance(inner.value.func.value, ast.Name) and inner.value.func.attr in ("append", "extend") and len(inner.value.args) == 1:
+        acc, elt, flat = inner.value.func.value.id, inner.value.args[0], inner.value.func.attr == "extend"
+    elif isinstance(inner, ast.AugAssign) and isinstance(inner.op, ast.Add) and isinstance(inner.target, ast.Name) and isinstance(inner.value, ast.List) and len(inner.value.elts) == 1:
+        acc, elt = inner.target.id, inner.value.elts[0]
+    if acc is None or str(env.values.get(acc)) != "[]":
+        return None
+    if any(isinstance(n, ast.Name) and n.id == acc for n in ast.walk(elt)):
+        return None
+    txt = _comp(elt, [(st.target, st.iter, conds)], env)
+    if flat:
+        txt = "flatten(%s)" % txt
+    return acc, Poly.atom(txt)
+
+
 def sym_at(snaps: Dict[int, Env], stmt: ast.stmt, e: ast.AST) -> Poly:
     """Normal form of expression e evaluated just before statement stmt."""
     return _sym(e, snaps[id(stmt)])
+
+
+# ---------------------------------------------------------------------------------------------
+# canonical conditions: the proposition "test evaluates to polarity" as a set of canonical literal strings (a conjunction),
+# with negations pushed inwards, comparisons oriented, and emptiness idioms unified
+
+_NEG_CMP = {"==": "!=", "!=": "==", "<": ">=", "<=": ">", ">": "<=", ">=": "<", "is": "is not", "is not": "is", "in": "not in", "not in": "in"}
+
+
+def cond_literals(test: ast.AST, polarity: bool, env: Optional[Env] = None) -> List[str]:
+    env = env or Env()
+    if isinstance(test, ast.UnaryOp) and isinstance(test.op, ast.Not):
+        return cond_literals(test.operand, not polarity, env)
+    if isinstance(test, ast.BoolOp):
+        if isinstance(test.op, ast.And) and polarity:
+            out = []
+            for v in test.values:
+                out += cond_literals(v, True, env)
+            return sorted(set(out))
+        if isinstance(test.op, ast.Or) and not polarity:
+            out = []
+            for v in test.values:
+                out += cond_literals(v, False, env)
+            return sorted(set(out))
+        # a disjunction: one opaque literal made of its sorted members
+        members = sorted("&".join(cond_literals(v, polarity if isinstance(test.op, ast.Or) else polarity, env)) for v in test.values)
+        return ["(" + (" | " if (isinstance(test.op, ast.Or) == polarity) else " & ").join(members) + ")"] if polarity == isinstance(test.op, ast.Or) else \
+            ["(" + " | ".join(sorted("&".join(cond_literals(v, False, env)) for v in test.values)) + ")"]
+    if isinstance(test, ast.Compare) and len(test.ops) == 1:
+        o = _CMP.get(type(test.ops[0]), type(test.ops[0]).__name__)
+        a, b = _sym(test.left, env), _sym(test.comparators[0], env)
+        if not polarity:
+            o = _NEG_CMP.get(o, "not " + o)
+        # emptiness idioms: len(x) == 0 / len(x) < 1 / not x  -> empty(x);  len(x) > 0 / != 0 / >= 1 / x -> nonempty(x)
+        sa, sb = str(a), str(b)
+        for l, r, oo in ((sa, sb, o), (sb, sa, {"<": ">", ">": "<", "<=": ">=", ">=": "<="}.get(o, o))):
+            if l.startswith("len(") and l.endswith(")") and r in ("0", "1"):
+                x = l[4:-1]
+                if (r == "0" and oo in ("==", "<=")) or (r == "1" and oo == "<"):
+                    return ["empty(%s)" % x]
+                if (r == "0" and oo in ("!=", ">")) or (r == "1" and oo == ">="):
+                    return ["nonempty(%s)" % x]
+        if o in (">", ">="):
+            a, b, o = b, a, {">": "<", ">=": "<="}[o]
+        if o in ("==", "!=", "is", "is not") and str(b) < str(a):
+            a, b = b, a
+        if o == "is":
+            o = "=="
+        if o == "is not":
+            o = "!="
+        return ["(%s %s %s)" % (a, o, b)]
+    t = str(_sym(test, env))
+    return [t if polarity else "not(%s)" % t]
+
+
+def cond_set(guards, env_of=None) -> List[str]:
+    """canonical conjunction of a list of (test, polarity) guards"""
+    out = []
+    for t, pol in guards:
+        out += cond_literals(t, pol, env_of(t) if env_of else None)
+    return sorted(set(out))
